@@ -8,6 +8,7 @@ import (
 	"net/http"
 	"strconv"
 	"strings"
+	"sync/atomic"
 	"time"
 
 	"github.com/hashicorp/raft"
@@ -232,20 +233,20 @@ func (api *HTTP) handleGetMessages(w http.ResponseWriter, r *http.Request, sessi
 	ctx, cancel := context.WithCancel(r.Context())
 	// Cancel the helper goroutines we are about to start when this
 	// request handler returns.
-	wasSuperseded := false
+	var wasSuperseded atomic.Bool
 	cancelAll := func(superseded bool) {
 		if superseded {
 			// cancelAll will be called after the context cancellation
 			// via defer, so save that this GetMessages request was
 			// superseded.
-			wasSuperseded = true
+			wasSuperseded.Store(true)
 		}
 		cancel()
 		// Wake up the getMessages goroutine from its GetNext call
 		// to quickly free up resources.
 		api.output().InterruptGetNext()
 
-		if !wasSuperseded {
+		if !wasSuperseded.Load() {
 			api.deleteGetMessagesRequests(sessionId)
 		}
 	}
